@@ -1,5 +1,5 @@
 (* Model/C03Run.v - case types and checker evaluated on harness-generated cases (C03) *)
-From ReqV Require Export Lib.Bytes Lib.PackedBytes Model.BodyFraming Model.StreamBody Model.StreamWire Model.Interim Model.TlsConn Model.RespRead Model.DupLength.
+From ReqV Require Export Lib.Bytes Lib.PackedBytes Model.BodyFraming Model.StreamBody Model.StreamWire Model.Interim Model.TlsConn Model.RespRead Model.DupLength Model.Download.
 
 (* what the harness saw for one exchange: error from the call, or the call succeeded and
    io.ReadAll(resp.Body) ended with [e] after [dlen] bytes; [prefix_ok]: the Go side
@@ -88,6 +88,9 @@ Inductive c03_case :=
    cut at the listed offsets: (offset, how the stream ended, what the caller saw, follow-up on
    the same connection) *)
 | H3Cuts (blocks : list hblock) (full body : bytes) (obs : list (N * h3end * h3_seen * bool))
+(* downloads of one response stream cut at the listed offsets: (offset, does the output's Close
+   succeed, did the call succeed, bytes that reached the output) *)
+| H1Downloads (hlen : N) (fr : framing) (wire body : bytes) (obs : list (N * bool * bool * N))
 (* one complete HTTP/1.1 exchange whose head carries the Content-Length lines [vals] (peer keeps
    the connection open) *)
 | H1ClLines (hlen : N) (vals : list N) (wire body : bytes) (seen : h1_seen) (next_on_same_conn : bool)
@@ -176,6 +179,13 @@ Definition c03_check (c : c03_case) : bool :=
             h3wres_eqb r r' && (N.of_nat (length d) =? dlen)%N && pok
             && bytes_eqb d (firstn_N dlen body) && Bool.eqb (h3_conn_usable e r) same
         | _, _ => false
+        end) obs
+  | H1Downloads hlen fr wire body obs =>
+      forallb (fun o =>
+        let '(k, close_ok, ok, saved) := o in
+        match h1_download hlen fr (firstn_N k wire) (Some (negb close_ok)) with
+        | Some d => ok && (N.of_nat (length d) =? saved)%N && bytes_eqb d (firstn_N saved body)
+        | None => negb ok
         end) obs
   | H1ClLines hlen vals wire body seen same =>
       let o := h1_read_cl_lines hlen vals wire in
